@@ -81,6 +81,11 @@ class _Canon(ast.NodeTransformer):
 
     def visit_Call(self, n):
         self.generic_visit(n)
+        # getattr(obj, 'name')  ->  obj.name
+        if isinstance(n.func, ast.Name) and n.func.id == 'getattr' and len(n.args) == 2 and not n.keywords \
+                and isinstance(n.args[1], ast.Constant) and isinstance(n.args[1].value, str) and n.args[1].value.isidentifier():
+            self.stats['getattr_const'] = self.stats.get('getattr_const', 0) + 1
+            return ast.copy_location(ast.Attribute(value=n.args[0], attr=n.args[1].value, ctx=ast.Load()), n)
         if any(isinstance(a, ast.Starred) and isinstance(a.value, (ast.Tuple, ast.List)) for a in n.args):
             args = []
             for a in n.args:
@@ -142,6 +147,11 @@ class _Canon(ast.NodeTransformer):
 
     def visit_If(self, n):
         self.generic_visit(n)
+        # a test that is a literal (left behind by unrolling / inlining with constant arguments): keep the live arm
+        if isinstance(n.test, ast.Constant) and isinstance(n.test.value, (bool, int, str, type(None))):
+            self.stats['canon_const_if'] = self.stats.get('canon_const_if', 0) + 1
+            live = n.body if n.test.value else n.orelse
+            return live if live else ast.copy_location(ast.Pass(), n)
         # if not not c:  ->  if c:   (only the truth value of a test is used)
         while isinstance(n.test, ast.UnaryOp) and isinstance(n.test.op, ast.Not) and isinstance(n.test.operand, ast.UnaryOp) \
                 and isinstance(n.test.operand.op, ast.Not):
@@ -1114,6 +1124,44 @@ def unroll_constant_loops(fn, stats):
                     if not all(is_pure(e) for e in s.iter.elts) or any(isinstance(e, ast.Starred) for e in s.iter.elts):
                         continue
                     inner = [x for st in s.body for x in ast.walk(st)]
+                    # search loop over constant rows:  for ROW in (r1, r2, ..): if COND: BODY; break   ->  if COND[r1]: BODY[r1] elif COND[r2]: ...
+                    if len(s.body) == 1 and isinstance(s.body[0], ast.If) and not s.body[0].orelse and s.body[0].body \
+                            and isinstance(s.body[0].body[-1], ast.Break) \
+                            and sum(1 for x in inner if isinstance(x, (ast.Break, ast.Continue, ast.Yield, ast.YieldFrom, ast.For, ast.While))) == 1:
+                        tnames = [s.target] if isinstance(s.target, ast.Name) else (list(s.target.elts) if isinstance(s.target, ast.Tuple) else None)
+                        rows = []
+                        okr = tnames is not None and all(isinstance(t_, ast.Name) for t_ in tnames)
+                        if okr:
+                            for e in s.iter.elts:
+                                if isinstance(s.target, ast.Name):
+                                    rows.append([e])
+                                elif isinstance(e, ast.Tuple) and len(e.elts) == len(tnames):
+                                    rows.append(list(e.elts))
+                                else:
+                                    okr = False
+                        if okr:
+                            nm = {t_.id for t_ in tnames}
+                            stored_in = any(isinstance(x, ast.Name) and x.id in nm and isinstance(x.ctx, ast.Store) for x in inner)
+                            used_after = sum(1 for x in ast.walk(fn) if isinstance(x, ast.Name) and x.id in nm) != \
+                                sum(1 for x in ast.walk(s) if isinstance(x, ast.Name) and x.id in nm)
+                            if not stored_in and not used_after and sum(1 for _ in inner) <= 150:
+                                chain = []
+                                for row in reversed(rows):
+                                    amap = {t_.id: v_ for t_, v_ in zip(tnames, row)}
+
+                                    class S(ast.NodeTransformer):
+                                        def visit_Name(self, n_):
+                                            if n_.id in amap and isinstance(n_.ctx, ast.Load):
+                                                return ast.copy_location(clone(amap[n_.id]), n_)
+                                            return n_
+                                    test = S().visit(clone(s.body[0].test))
+                                    body = [S().visit(x) for x in clone(s.body[0].body[:-1])] or [ast.Pass()]
+                                    node = ast.If(test=test, body=body, orelse=chain)
+                                    chain = [ast.copy_location(node, s)]
+                                blk[i:i + 1] = chain
+                                stats['search_loops_unrolled'] = stats.get('search_loops_unrolled', 0) + 1
+                                changed = True
+                                break
                     if any(isinstance(x, (ast.Break, ast.Continue, ast.Yield, ast.YieldFrom)) for x in inner):
                         continue
                     if sum(1 for _ in inner) > 120:
@@ -1709,6 +1757,7 @@ def normalize_module(modname, tree, stats, pkg_dir=None):
         expand_tables(tree, cls, f, stats)
         unguard_continue(f, stats)
         unroll_constant_loops(f, stats)
+        _Canon(stats).visit(f)
         try:
             copy_propagate(f, ms, stats)
         except RecursionError:
